@@ -1096,7 +1096,7 @@ class FedSim(object):
                "msg_binding": msg["binding"], "mut": mutdesc, "conv": bool(conv),
                "now": int(w.clock.now(to)), "now_f": w.clock.now(to),
                "outstanding": sorted(sp.outstanding.keys()), "value": value,
-               "asked": msg.get("asked"), "tf": ev.get("tf"), "dup": ev.get("dup", False),
+               "asked": msg.get("asked"), "tf": ev.get("tf"), "dup": ev.get("dup", False), "req_keys": ev.get("req_keys"),
                "from": msg["from"], "msgkind": msg.get("kind", "response")}
         if ev.get("dup"):
             self.count("fault.dup-or-replay")
@@ -1121,8 +1121,13 @@ class FedSim(object):
                 if via_binding == "soap":
                     resp = sp.client.parse_attribute_query_response(value, BINDING_SOAP)
                 else:
+                    oc = None
+                    if ev.get("req_keys") and fl.reqid:
+                        # the SP sent a certificate of its own with the request and kept the private key(s) for it
+                        oc = {fl.reqid: [{"key": open(key_file(k_)).read(), "cert": fed.cert_pem(k_)} for k_ in ev["req_keys"]]}
+                        self.count("probe.request-specific-keys")
                     resp = sp.client.parse_authn_request_response(
-                        value, BIND[via_binding], sp.outstanding, conv_info=conv)
+                        value, BIND[via_binding], sp.outstanding, outstanding_certs=oc, conv_info=conv)
             if resp is None:
                 out["none"] = True
             else:
@@ -1189,6 +1194,22 @@ class FedSim(object):
         self.world.clock.jump(ev["node"], ev["delta"])
         self.count("fault.clock-jump")
         return {"node": ev["node"], "delta": ev["delta"]}
+
+    def ev_publish(self, ev, i):
+        """The long-running node serves its own metadata, generated from its live configuration object
+        (what the example IdP / SP do in their /metadata handlers)."""
+        n = self.nodes.get(ev["node"])
+        if n is None:
+            return None
+        from saml2_tophat.metadata import entity_descriptor
+        obj = getattr(n, "server", None) or getattr(n, "client", None)
+        try:
+            with self.world.on(n.name):
+                entity_descriptor(obj.config)
+            self.count("event.publish-own-metadata")
+        except Exception as e:
+            self.count("event.publish-own-metadata.error." + type(e).__name__)
+        return {"node": ev["node"]}
 
     def ev_restart(self, ev, i):
         n = self.nodes.get(ev["node"])
